@@ -845,3 +845,118 @@ _run_c02_19 = run
 def run(res, facts, tier):
     _run_c02_19(res, facts, tier)
     r9_recycled(res, facts)
+
+
+# ----------------------------------------------------------------------------------------------- R10: function arity
+ARITY = {   # XPath 1.0 §4 and XSLT 1.0 §12: name -> accepted argument counts ('2+' = two or more)
+    'last': {0}, 'position': {0}, 'count': {1}, 'id': {1}, 'local-name': {0, 1}, 'namespace-uri': {0, 1}, 'name': {0, 1},
+    'string': {0, 1}, 'concat': {'2+'}, 'starts-with': {2}, 'contains': {2}, 'substring-before': {2}, 'substring-after': {2}, 'substring': {2, 3},
+    'string-length': {0, 1}, 'normalize-space': {0, 1}, 'translate': {3}, 'boolean': {1}, 'not': {1}, 'true': {0}, 'false': {0}, 'lang': {1},
+    'number': {0, 1}, 'sum': {1}, 'floor': {1}, 'ceiling': {1}, 'round': {1},
+    'document': {1, 2}, 'key': {2}, 'format-number': {2, 3}, 'current': {0}, 'unparsed-entity-uri': {1}, 'generate-id': {0, 1}, 'system-property': {1},
+    'element-available': {1}, 'function-available': {1},
+}
+SHORTCUT_COMPILERS = {'FunctionPosition': 'position', 'FunctionLast': 'last', 'FunctionCount': 'count', 'FunctionNot': 'not', 'FunctionTrue': 'true', 'FunctionFalse': 'false',
+                      'FunctionBoolean': 'boolean', 'FunctionName': 'name', 'FunctionLocalName': 'local-name', 'FunctionNumber': 'number', 'FunctionFloor': 'floor',
+                      'FunctionCeiling': 'ceiling', 'FunctionRound': 'round', 'FunctionString': 'string', 'FunctionSum': 'sum', 'FunctionStringLength': 'string-length',
+                      'FunctionNamespaceURI': 'namespace-uri'}
+
+
+def r10_arity(res, facts):
+    from ..mast import Machine, Unsupported as _U
+    r = res.rule('C02-R10', 'every core function accepts exactly the argument counts XPath 1.0 §4 / XSLT 1.0 §12 give it: the compile functions of the shortcut op codes are interpreted '
+                 'for 0..3 arguments (error or not), and each Function class installed in the function table implements execute() for exactly the arities of the name it is installed under', floor=30)
+    # (a) shortcut compile functions
+    for fn, name in sorted(SHORTCUT_COMPILERS.items()):
+        asts = facts.asts('XPathProcessorImpl::' + fn, must=False)
+        if not asts:
+            r.violation('compile %s()' % name, 'XPathProcessorImpl::%s is gone' % fn, None)
+            continue
+        a = asts[0]
+        accepted = set()
+        for n in range(0, 4):
+            errs = []
+
+            def hook(m, c, n=n):
+                nm = c.get('n') or callee(c).split('::')[-1]
+                if nm == 'FunctionCallArguments':
+                    return n
+                if nm == 'error':
+                    errs.append(1)
+                    return 0
+                if nm in ('appendOpCode', 'replaceOpCode', 'nextToken', 'insertOpCode', 'updateOpCodeLength', 'back', 'empty', 'setOpCodeMapValue'):
+                    return 0
+                if c['k'] in ('Ctor', 'OpCall'):
+                    return 0
+                return 0
+            m = Machine({p['id']: 0 for p in a['params']}, call_hook=hook)
+            try:
+                m.call(a['body'])
+            except _U as u:
+                # assignments to m_positionPredicateStack.back() and the like: not part of the arity decision
+                pass
+            if not errs:
+                accepted.add(n)
+        site = 'compile %s()' % name
+        if accepted == ARITY[name]:
+            r.ok(site, 'accepts %s argument(s)' % sorted(accepted))
+        else:
+            r.violation(site, 'accepts %s argument(s), XPath 1.0 gives %s' % (sorted(accepted), sorted(ARITY[name])), common.file_line(a))
+    # (b) Function classes in the table
+    ct = facts.asts('XPathFunctionTable::CreateTable')[0]
+    der = facts.derived('xalanc_1_12::Function')
+    arity = collections.defaultdict(set)
+    for k, v in facts.F.items():
+        if v.get('kind') == 'method' and v['name'].split('::')[-1] == 'execute' and v.get('cls') in der and v.get('def'):
+            ps = v.get('params', [])
+            if any('XObjectArgVectorType' in p or 'XalanVector' in p for p in ps):
+                arity[v['cls']].add('N')
+            else:
+                arity[v['cls']].add(len(ps) - 3)
+    n_inst = 0
+    installs = [(ct, c) for c in calls(ct['body']) if (c.get('n') or '') == 'InstallFunction']
+    for b in facts.asts('XSLTEngineImpl::installFunctions', must=False):
+        locals_ = {v['id']: v for x in walk(b['body']) if x.get('k') == 'Decl' for v in x.get('vars', [])}
+        for c in calls(b['body']):
+            if (c.get('n') or '') == 'installFunction':
+                installs.append((b, c))
+    for ct, c in installs:
+        if len(c.get('args', [])) < 2:
+            continue
+        nm_ref = strip_casts(c['args'][0])
+        t = facts.table(nm_ref.get('q') or ('XPathFunctionTable::' + nm_ref.get('n', '')), must=False) if isinstance(nm_ref, dict) else None
+        if not t:
+            continue
+        name = ''.join(chr(x) for x in facts.resolve(t['val']) if isinstance(x, int) and x)
+        ctor = strip_casts(c['args'][1])
+        while isinstance(ctor, dict) and ctor.get('k') == 'Ctor' and ctor.get('copy') and ctor.get('args'):
+            ctor = strip_casts(ctor['args'][0])
+        cls = ctor.get('cls') if isinstance(ctor, dict) else None
+        if not cls and isinstance(ctor, dict) and ctor.get('k') == 'Ref':
+            cls = (ctor.get('ty') or '').replace('const ', '').strip()
+        if not cls or short(cls) == 'FunctionNotImplemented' or name not in ARITY:
+            continue
+        n_inst += 1
+        got = arity.get(cls, set())
+        want = ARITY[name]
+        norm = set(got)
+        if '2+' in want:
+            ok = {2, 3, 'N'} <= got and 0 not in got and 1 not in got
+        else:
+            ok = (got - {'N'}) == want
+        site = "function table: '%s' -> %s" % (name, short(cls))
+        if ok:
+            r.ok(site, 'execute() implemented for %s' % sorted(got, key=str))
+        else:
+            r.violation(site, 'the class implements execute() for %s argument(s), the Recommendation gives %s' % (sorted(got, key=str), sorted(want, key=str)), common.file_line(ct, c))
+    if n_inst < 18:
+        raise AnalysisBroken('only %d core functions found in XPathFunctionTable::CreateTable / XSLTEngineImpl::installFunctions' % n_inst)
+    return r
+
+
+_run_c02_20 = run
+
+
+def run(res, facts, tier):
+    _run_c02_20(res, facts, tier)
+    r10_arity(res, facts)
